@@ -132,7 +132,7 @@ impl Check for C08 {
         "fault_enumeration"
     }
     fn rule(&self) -> String {
-        "target names over {a b . / \\ space % ~}: enumerated to length 5 (thorough: all 37448; quick: every 5th) plus seeded names to length 40; per name: size, chunking, prefix mode, pre-existing destination file are seeded; within a run EVERY failure position is enumerated (bit flip, oversize, transport error before chunk k for every k, the caller abandoning the operation before chunk k for every k) followed by the clean delivery, and an observer scans the whole sandbox at every poll of the target stream; non-trivial = the name was accepted at load and at least one failing delivery was pulled; distinct = distinct canonical trace".into()
+        "target names over {a b . / \\ space % ~}: enumerated to length 5 (thorough: all 37448; quick: every 5th) plus seeded names to length 40, a tenth of them absolute paths that share a string prefix with the output directory (<out>-old/f, <out>2/a/b, <out>/../sibling/x, ...); per name: size, chunking, prefix mode, pre-existing destination file are seeded; within a run EVERY failure position is enumerated (bit flip, oversize, transport error before chunk k for every k, the caller abandoning the operation before chunk k for every k) followed by the clean delivery, and an observer scans the whole sandbox at every poll of the target stream; non-trivial = the name was accepted at load and at least one failing delivery was pulled; distinct = distinct canonical trace".into()
     }
     fn assumptions(&self) -> Vec<String> {
         vec![
@@ -189,6 +189,9 @@ impl Check for C08 {
         if r.chance(1, 8) {
             name = format!("{}/../../{}", &name[..len / 2], &name[len / 2..]);
         }
+        if r.chance(1, 10) {
+            name = format!("@OUT@{}", r.pick(&["-old/f", "2/a/b", "box/x.bin", ".bak", "/../out-old/f", "/../sibling/x", "/./inside"]));
+        }
         let size = if r.chance(1, 2) { r.usize_below(200) } else { r.usize_below(16 * 1024) };
         let chunks = r.chunking(size);
         let chunks: Vec<usize> = chunks.into_iter().take(12).collect();
@@ -232,7 +235,7 @@ impl Check for C08 {
         v
     }
     fn required_faults(&self, _t: Tier) -> Vec<&'static str> {
-        vec!["corrupted_delivery", "oversize_delivery", "transport_error_at_chunk", "operation_abandoned_mid_transfer", "observation_between_chunks", "preexisting_destination", "name_with_dotdot", "absolute_name", "name_with_backslash"]
+        vec!["corrupted_delivery", "oversize_delivery", "transport_error_at_chunk", "operation_abandoned_mid_transfer", "observation_between_chunks", "preexisting_destination", "name_with_dotdot", "absolute_name", "name_with_backslash", "absolute_name_sharing_a_prefix_with_outdir"]
     }
     fn required_probes(&self, _t: Tier) -> Vec<&'static str> {
         vec!["saved_and_verified", "failed_attempt_left_tree_unchanged", "abandoned_attempt_left_tree_unchanged", "name_rejected_at_load", "escape_refused"]
@@ -243,12 +246,6 @@ impl Check for C08 {
     fn run(&self, sc: &Sc) -> Outcome {
         let mut o = Outcome::new();
         let body = Rng::new(sc.content_seed).bytes(sc.size);
-        let mut spec = RepoSpec::basic(sc.world, sc.consistent);
-        spec.add_target(&sc.name, &body);
-        let built = world::build(&spec);
-        let hexd = json::sha256_hex(&body);
-        o.ev(format!("cfg name={:?} size={} chunks={:?} pend={:?} digest_prefix={} pre={} consistent={}", sc.name, sc.size, sc.chunks, sc.pendings, sc.prefix_digest, sc.preexisting, sc.consistent));
-
         let scratch = Scratch::new();
         let sbox = scratch.dir("S");
         let out = sbox.join("out");
@@ -258,9 +255,22 @@ impl Check for C08 {
         std::fs::write(sbox.join("sibling").join("canary.txt"), b"sibling canary").unwrap();
         let out = std::fs::canonicalize(&out).unwrap();
         let sbox = std::fs::canonicalize(&sbox).unwrap();
+        // "@OUT@" in a scenario's name stands for the absolute path of the output directory, which
+        // only exists now: names such as "<out>-old/f" are absolute paths that merely *start with
+        // the same characters* as the output directory (the trace keeps the placeholder)
+        let name: String = sc.name.replace("@OUT@", &out.to_string_lossy());
+        if sc.name.contains("@OUT@") {
+            o.fault("absolute_name_sharing_a_prefix_with_outdir");
+        }
+        let mut spec = RepoSpec::basic(sc.world, sc.consistent);
+        spec.add_target(&name, &body);
+        let built = world::build(&spec);
+        let hexd = json::sha256_hex(&body);
+        o.ev(format!("cfg name={:?} size={} chunks={:?} pend={:?} digest_prefix={} pre={} consistent={}", sc.name, sc.size, sc.chunks, sc.pendings, sc.prefix_digest, sc.preexisting, sc.consistent));
+
 
         // ---- model of the destination
-        let model = model_resolve(&sc.name);
+        let model = model_resolve(&name);
         let dest: Option<PathBuf> = model.as_ref().map(|(abs, res)| {
             let full = if *abs { format!("/{res}") } else { res.clone() };
             let rel = if sc.prefix_digest { format!("{hexd}.{full}") } else { full };
@@ -274,13 +284,13 @@ impl Check for C08 {
                 return o;
             }
         }
-        if sc.name.contains("..") {
+        if name.contains("..") {
             o.fault("name_with_dotdot");
         }
-        if sc.name.starts_with('/') {
+        if name.starts_with('/') {
             o.fault("absolute_name");
         }
-        if sc.name.contains('\\') {
+        if name.contains('\\') {
             o.fault("name_with_backslash");
         }
 
@@ -371,10 +381,10 @@ impl Check for C08 {
             }
         };
         if model.is_none() {
-            o.violate("unusable-name-accepted", format!("the name {:?} resolves to nothing but was accepted", sc.name));
+            o.violate("unusable-name-accepted", format!("the name {:?} resolves to nothing but was accepted", name));
             return o;
         }
-        let tn = TargetName::new(sc.name.clone()).expect("name accepted at load");
+        let tn = TargetName::new(name.clone()).expect("name accepted at load");
         let prefix = if sc.prefix_digest { Prefix::Digest } else { Prefix::None };
 
         // ---- pre-existing file at the destination
@@ -512,7 +522,7 @@ impl Check for C08 {
                     // (iv) the destination holds exactly the signed bytes
                     let ok = dest.as_ref().is_some_and(|p| std::fs::read(p).is_ok_and(|b| b == body));
                     if !dest_inside {
-                        o.violate("escaping-name-saved", format!("save_target succeeded for {:?}; model destination {:?}", sc.name, dest));
+                        o.violate("escaping-name-saved", format!("save_target succeeded for {:?}; model destination {:?}", name, dest));
                     } else if !ok {
                         o.violate("saved-file-differs-from-signed-content", format!("after a successful save {:?} does not hold the signed bytes", dest));
                     } else {
@@ -531,8 +541,8 @@ impl Check for C08 {
                     o.violate(format!("unverified-delivery-saved:{}", delivery_name(d)), format!("save_target reported success for delivery {d:?}"));
                 }
                 (Err(e), Delivery::Clean) => {
-                    if dest_inside && benign(&sc.name) {
-                        o.violate("benign-name-refused", format!("clean delivery of {:?} failed with {} (model destination {:?})", sc.name, variant(e), dest));
+                    if dest_inside && benign(&name) {
+                        o.violate("benign-name-refused", format!("clean delivery of {:?} failed with {} (model destination {:?})", name, variant(e), dest));
                     } else {
                         o.probe("escape_refused");
                     }
